@@ -2044,7 +2044,9 @@ def attr_alias(nz, body, fi):
 
 
 def fresh_container_value(v) -> bool:
-    return isinstance(v, (ast.List, ast.Dict, ast.Set)) or (isinstance(v, ast.Call) and isinstance(v.func, ast.Name) and v.func.id in ("list", "dict", "set") and not v.args)
+    """an expression that makes a new container every time it is evaluated (a display, a comprehension, list() / dict() / set() with or without an argument)"""
+    return isinstance(v, (ast.List, ast.Dict, ast.Set, ast.ListComp, ast.DictComp, ast.SetComp)) \
+        or (isinstance(v, ast.Call) and isinstance(v.func, ast.Name) and v.func.id in ("list", "dict", "set", "sorted") and len(v.args) <= 1 and not v.keywords)
 
 
 def adjacent_copyprop(nz, body, fi):
